@@ -85,3 +85,17 @@ Example C11_witness :
   | None => False
   end.
 Proof. vm_compute. auto. Qed.
+
+From FV Require World Factory FactoryInv FactoryProbe StoreBWeak.
+Import ListNotations.
+(* can_put is truthful at every reachable world of every factory, not only in every store state
+   satisfying Inv: yes <-> a reservation issued now is granted in that call (theories/Factory/FactoryProbe.v) *)
+Theorem C11_probe_truthful_in_every_factory :
+  forall nodes edges order n, Forall (fun ed => StoreBWeak.WN (World.est ed)) edges ->
+  let w := FactoryInv.iter_fstep n (Factory.mk_world nodes edges order) in
+  forall e ev p, (e < length (World.wedges w))%nat ->
+    (World.e_can_put w e = true ->
+       snd (StoreB.step (FactoryProbe.synced w e ev) (StoreB.RPut p 0)) = [StoreB.next (FactoryProbe.synced w e ev)]) /\
+    (World.e_can_put w e = false -> snd (StoreB.step (FactoryProbe.synced w e ev) (StoreB.RPut p 0)) = []).
+Proof. exact FactoryProbe.probe_decides_grant_everywhere. Qed.
+Print Assumptions C11_probe_truthful_in_every_factory.
